@@ -17,6 +17,10 @@ THEOREM_MODULES = ["Yarel.Props.C07", "Yarel.Props.SpecClasses"]
 REQUIRED_THEOREMS = ["field_shadows_method_invoke", "field_shadows_method_get", "invoke_calls_class_method", "get_binds_class_method",
                      "bound_call_eq_invoke", "missing_member_is_attribute_error", "copy_down_is_nearest", "rebinding_irrelevant", "fields_first", "invoke_eq_get_call", "bound_keeps_receiver",
                      "super_static", "static_self", "ctor_returns_instance", "errors_classified"]
+# the state the models abstract is all the state there is: the fields of the run-time structures, regenerated on every run, are the ones
+# the models were written against (Props/StateInventory)
+THEOREM_MODULES.append("Yarel.Props.StateInventory")
+REQUIRED_THEOREMS += ['state_of_classes']
 LEVEL = "proof"
 ASSUMPTIONS = [
     "class-table model Yarel/Model/ClassTable.lean transcribes declare/inherit/method/define and the property/invoke/super paths of vm.rs "
